@@ -77,6 +77,37 @@ type qstack struct {
 	st     *stack.Stack
 	flags  []groupFlags
 	remote []netip.Addr
+	// envOn, when not nil, says which of the three lists the builder was told
+	// to create at all (the *_ENABLED environment switches); the stack then
+	// comes from the builder in internal/cmd (wiring campaign).
+	envOn *[3]bool
+	// listed, when not nil, replaces the lists of the runner's env.
+	listed *[3]map[string]int
+	// grp is the group's filter configuration as the builder made it.
+	grp *filter.ConfigGroup
+}
+
+// enabledFor lists the storages a question of profile or group k meets.
+func (q *qstack) enabledFor(k int) (l []int) {
+	for _, i := range q.flags[k].enabled() {
+		if q.envOn == nil || q.envOn[i] {
+			l = append(l, i)
+		}
+	}
+
+	return l
+}
+
+// envString spells envOn for the model.
+func (q *qstack) envString() string {
+	b := []byte("000")
+	for i, on := range q.envOn {
+		if on {
+			b[i] = '1'
+		}
+	}
+
+	return string(b)
 }
 
 var allGroupFlags = []groupFlags{
@@ -239,6 +270,17 @@ func (c *runner) opQuestion(q *qstack, k int, qname string, qt uint16) {
 	default:
 		gotList = fmt.Sprintf("%T", res)
 	}
+	c.judgeQuestion(q, k, qname, qt, gotList, gotRule, rep, line)
+}
+
+// judgeQuestion is the oracle for the verdict (list and rule) on a question.
+func (c *runner) judgeQuestion(q *qstack, k int, qname string, qt uint16, gotList, gotRule string, rep map[string]any, line string) {
+	flags := q.flags[k]
+	listed := [3]map[string]int{c.e.listed[0], c.e.listed[1], c.e.listed[2]}
+	if q.envOn != nil {
+		listed = *q.listed
+	}
+	enabled := q.enabledFor(k)
 	// Property oracle: the host is the question name in lower case without the
 	// final dot; it is dangerous / adult / newly registered exactly when that
 	// list is switched on for the group and lists the host or a parent.
@@ -247,10 +289,10 @@ func (c *runner) opQuestion(q *qstack, k int, qname string, qt uint16) {
 	filterable := qt == dns.TypeA || qt == dns.TypeAAAA || qt == dns.TypeHTTPS
 	cands := oracleCandidates(host)
 	wantList, wantRules := "", []string(nil)
-	for _, i := range flags.enabled() {
+	for _, i := range enabled {
 		var l []string
 		for _, s := range cands {
-			if _, ok := c.e.listed[i][s]; ok && s != "" {
+			if _, ok := listed[i][s]; ok && s != "" {
 				l = append(l, s)
 			}
 		}
@@ -269,12 +311,12 @@ func (c *runner) opQuestion(q *qstack, k int, qname string, qt uint16) {
 		c.r.Violate(sig, fmt.Sprintf("question %q type %d flags %s: treated as %s (rule %q), but no enabled list has the host or a parent",
 			qname, qt, flags, gotList, gotRule), rep)
 	case gotList != wantList && gotList == "":
-		if !c.interiorOnly(host, flags.enabled()) {
+		if !c.interiorOnly(host, enabled, listed) {
 			c.r.Violate("question-not-treated-as-listed", fmt.Sprintf("question %q type %d flags %s: not filtered although list %s has %q",
 				qname, qt, flags, wantList, wantRules), rep)
 		}
 	case gotList != wantList:
-		if !c.interiorOnly(host, flags.enabled()) {
+		if !c.interiorOnly(host, enabled, listed) {
 			c.r.Violate("question-attributed-to-wrong-list", fmt.Sprintf("question %q type %d flags %s: treated as %s (rule %q), the first enabled list with a listed parent is %s %q",
 				qname, qt, flags, gotList, gotRule, wantList, wantRules), rep)
 		}
@@ -286,7 +328,7 @@ func (c *runner) opQuestion(q *qstack, k int, qname string, qt uint16) {
 	if gotList != "" {
 		real = fmt.Sprintf("list %d rule %s", listIndex(gotList), hx(gotRule))
 		c.flag("question.listed:" + gotList)
-	} else if len(flags.enabled()) == 0 {
+	} else if len(enabled) == 0 {
 		c.flag("question.nothing_enabled")
 	} else {
 		c.flag("question.none")
@@ -310,7 +352,7 @@ func listIndex(id string) int {
 // interiorOnly: the expectation rests on a name the code cannot see as a
 // candidate because of the public suffix package's answer for names between two
 // private rules (known finding, reported by opFilter under its own signature).
-func (c *runner) interiorOnly(host string, enabled []int) bool {
+func (c *runner) interiorOnly(host string, enabled []int, listed [3]map[string]int) bool {
 	seen := map[string]bool{}
 	for _, s := range oracleCandidatesWith(host, publicsuffix.PublicSuffix) {
 		seen[s] = true
@@ -320,7 +362,7 @@ func (c *runner) interiorOnly(host string, enabled []int) bool {
 			continue
 		}
 		for _, i := range enabled {
-			if _, ok := c.e.listed[i][s]; ok {
+			if _, ok := listed[i][s]; ok {
 				return true
 			}
 		}
